@@ -390,7 +390,91 @@ fn ladder_probes(shape: u64) -> (Vec<Key>, Key) {
     }
 }
 
+/// History independence: the heap a traversal or set operation needs is
+/// determined by ITS inputs (k and the longest key), not by what earlier
+/// operations of the thread or the process have seen. On a fresh thread:
+/// peak extra heap of a union / intersection over 16 tiny sets and of a stream,
+/// before and after this thread and another one ran the same operations over
+/// FSTs holding a 65 536-byte key.
+pub fn run_history_independence() -> Result<Vec<(String, i64, i64)>, String> {
+    fn tiny(i: u64) -> Vec<u8> {
+        let mut b = raw::Builder::memory();
+        for j in 0..6u64 {
+            b.insert(format!("k{}{}", j, (i + j) % 7), i + j).unwrap();
+        }
+        b.into_inner().unwrap()
+    }
+    fn giant(seed: u8) -> Vec<u8> {
+        let mut b = raw::Builder::memory();
+        b.insert("a", 1).unwrap();
+        b.insert(vec![b'a' + seed % 2; 65_536], 2).unwrap();
+        b.insert("z", 3).unwrap();
+        b.into_inner().unwrap()
+    }
+    fn ops(files: &[Vec<u8>]) -> Vec<(String, i64)> {
+        let fsts: Vec<Fst<&[u8]>> = files.iter().map(|f| Fst::new(&f[..]).unwrap()).collect();
+        let mut out = vec![];
+        let mut measure = |what: &str, f: &mut dyn FnMut() -> u64| {
+            let x0 = alloc::live();
+            alloc::reset_peak();
+            std::hint::black_box(f());
+            out.push((what.to_string(), alloc::peak() - x0));
+        };
+        measure("union", &mut || {
+            let mut ob = raw::OpBuilder::new();
+            for f in &fsts { ob.push(f); }
+            let mut u = ob.union();
+            let mut c = 0;
+            while u.next().is_some() { c += 1; }
+            c
+        });
+        measure("intersection", &mut || {
+            let mut ob = raw::OpBuilder::new();
+            for f in &fsts { ob.push(f); }
+            let mut u = ob.intersection();
+            let mut c = 0;
+            while u.next().is_some() { c += 1; }
+            c
+        });
+        measure("stream + bounded range + search", &mut || {
+            let mut c = 0;
+            let mut s = fsts[0].stream();
+            while s.next().is_some() { c += 1; }
+            let mut s = fsts[0].range().ge("k1").le("k5").into_stream();
+            while s.next().is_some() { c += 1; }
+            let mut s = fsts[0].search(fst::automaton::Subsequence::new("k")).into_stream();
+            while s.next().is_some() { c += 1; }
+            c
+        });
+        measure("is_subset + get_key", &mut || fsts[0].is_subset(&fsts[1]) as u64 + fsts[0].get_key(3).is_some() as u64);
+        out
+    }
+    std::thread::spawn(|| -> Result<Vec<(String, i64, i64)>, String> {
+        guard(|| {
+            let small: Vec<Vec<u8>> = (0..16).map(tiny).collect();
+            let big: Vec<Vec<u8>> = (0..3).map(giant).collect();
+            let before = ops(&small);
+            let _ = ops(&big);
+            let big2 = big.clone();
+            let _ = std::thread::spawn(move || ops(&big2)).join();
+            let after = ops(&small);
+            before.into_iter().zip(after).map(|(b, a)| (b.0, b.1, a.1)).collect()
+        })
+    })
+    .join()
+    .map_err(|_| "thread panicked".to_string())?
+}
+
 pub fn replay(case: &Value) -> Result<String, String> {
+    if case["history_independence"].as_bool() == Some(true) {
+        let rows = run_history_independence()?;
+        for (what, b, a) in &rows {
+            if (a - b).abs() > 4096 {
+                return Err(format!("{}: {} bytes before, {} after", what, b, a));
+            }
+        }
+        return Ok(format!("{} measurements unchanged", rows.len()));
+    }
     if let Some(n) = case["ladder_n"].as_u64() {
         let k = case["k"].as_u64().unwrap_or(1) as usize;
         let shape = case["shape"].as_u64().unwrap_or(0);
@@ -436,7 +520,7 @@ pub fn replay(case: &Value) -> Result<String, String> {
 pub fn plan(tier: Tier) -> Plan {
     let mut p = Plan::new("C14", "exploration");
     let thorough = tier.thorough();
-    p.rule = "counting allocator, per-thread. (1) exhaustive in small scopes: for every FST of all subsets of U_ab3 and U_raw2 (values 3i+1), of the fan-out families and of the 256-byte label family: (a) Fst::new/Map::new/Set::new over borrowed bytes and every get/contains_key/contains of the probe closure perform ZERO allocations (allocation count), and so does get_key_into for every value found, its neighbours and 0..7 into a caller buffer of sufficient capacity; (b) stream(), every range (all kind pairs x bound keys of length <= 2; large sets <= 1) and three automaton searches: live heap after EVERY next() <= heap before construction + 4096 + 256*(L+2) + 4*(L+16); (c) union/intersection/difference/symmetric_difference over k = 2..4 FST-backed streams (the FST, its even- and odd-indexed halves, itself): live heap after every next() <= before + 256 + k*(stream bound + 2*max(L,64) + 512). (2) finite ladder (not exhaustive): FSTs of N = 1e4, 1e5 (thorough 1e6) 8-byte keys: full stream/range/search, k = 2..8 way operations over partially overlapping FSTs, and operations over 2-4 identical and over disjoint FSTs (long runs in which nothing is emitted): max extra heap identical (+-256 B) for all N; the same on a wide-node ladder (3-byte keys: root of up to 256 transitions, N/40 distinct non-root nodes of 64 and 40 transitions; N = 10240, 102400, 655360 - the last one a dense root in a file > 64 KiB), with zero-allocation open/lookups on each; on both ladders also is_subset / is_superset / is_disjoint (raw and Set, also against a range stream) and the Debug formatting of Set and Map into a non-allocating sink, traversals abandoned after 1000 items and two streams of one FST advanced alternately: bounded range scans and searches (run to the end, abandoned, never advanced); each call is repeated four times: peak extra heap bounded and identical for all N, what stays live after a call bounded likewise and NOT growing with repetition (a leak per traversal is growth with use). non-trivial = traversals yielding >= 2 items".into();
+    p.rule = "counting allocator, per-thread. (1) exhaustive in small scopes: for every FST of all subsets of U_ab3 and U_raw2 (values 3i+1), of the fan-out families and of the 256-byte label family: (a) Fst::new/Map::new/Set::new over borrowed bytes and every get/contains_key/contains of the probe closure perform ZERO allocations (allocation count), and so does get_key_into for every value found, its neighbours and 0..7 into a caller buffer of sufficient capacity; (b) stream(), every range (all kind pairs x bound keys of length <= 2; large sets <= 1) and three automaton searches: live heap after EVERY next() <= heap before construction + 4096 + 256*(L+2) + 4*(L+16); (c) union/intersection/difference/symmetric_difference over k = 2..4 FST-backed streams (the FST, its even- and odd-indexed halves, itself): live heap after every next() <= before + 256 + k*(stream bound + 2*max(L,64) + 512). (2) finite ladder (not exhaustive): FSTs of N = 1e4, 1e5 (thorough 1e6) 8-byte keys: full stream/range/search, k = 2..8 way operations over partially overlapping FSTs, and operations over 2-4 identical and over disjoint FSTs (long runs in which nothing is emitted): max extra heap identical (+-256 B) for all N; the same on a wide-node ladder (3-byte keys: root of up to 256 transitions, N/40 distinct non-root nodes of 64 and 40 transitions; N = 10240, 102400, 655360 - the last one a dense root in a file > 64 KiB), with zero-allocation open/lookups on each; on both ladders also is_subset / is_superset / is_disjoint (raw and Set, also against a range stream) and the Debug formatting of Set and Map into a non-allocating sink, traversals abandoned after 1000 items and two streams of one FST advanced alternately: bounded range scans and searches (run to the end, abandoned, never advanced); each call is repeated four times: peak extra heap bounded and identical for all N, what stays live after a call bounded likewise and NOT growing with repetition (a leak per traversal is growth with use). (3) history independence: peak extra heap of union / intersection / stream / range / search / predicates over 16 tiny sets on a fresh thread, before and after this thread and another one ran them over FSTs with a 65 536-byte key, differs by <= 4 KiB. non-trivial = traversals yielding >= 2 items".into();
     p.assumptions = vec![
         "'for all N' beyond the ladder is not decided; transient per-item allocations that are freed again do not violate the property as stated".into(),
         "memory of user-supplied streams is outside the property".into(),
@@ -597,6 +681,21 @@ pub fn plan(tier: Tier) -> Plan {
                     }
                 }
             }
+        }
+    }));
+    p.units.push(unit("history-independence-(after-operations-over-a-65536-byte-key)", "history independence".into(), move |st, rep| {
+        st.evals += 1;
+        match run_history_independence() {
+            Ok(rows) => {
+                st.count("history_independence_measurements", rows.len() as u64);
+                st.sample(|| json!({"history_independence": rows.iter().map(|(w, b, a)| json!({"what": w, "before": b, "after": a})).collect::<Vec<_>>()}));
+                for (what, b, a) in rows {
+                    if (a - b).abs() > 4096 {
+                        rep.violation(format!("history independence: {}", what), format!("{} over 16 tiny sets: peak extra heap {} bytes on a fresh thread, {} bytes for the same operation after this thread and another one ran it over FSTs with a 65536-byte key: the heap depends on what earlier operations have seen", what, b, a), json!({"history_independence": true}));
+                    }
+                }
+            }
+            Err(msg) => rep.violation("history independence".into(), msg, json!({"history_independence": true})),
         }
     }));
     p.must_be_nonzero = vec!["ladder_points".into(), "zero_alloc_calls".into()];
